@@ -137,8 +137,15 @@ pub async fn send_appointment(
                 r.start_block,
                 r.signature.clone(),
             );
+            // The tower may have sent something that is not even a signature
             let recovered_id = TowerId(
-                cryptography::recover_pk(&receipt.to_vec(), &receipt.signature().unwrap()).unwrap(),
+                cryptography::recover_pk(&receipt.to_vec(), &receipt.signature().unwrap()).map_err(
+                    |e| {
+                        RequestError::DeserializeError(format!(
+                            "Unexpected response body. The appointment receipt signature cannot be decoded: {e}"
+                        ))
+                    },
+                )?,
             );
             if recovered_id == tower_id {
                 Ok((r, receipt))
